@@ -51,6 +51,7 @@ def run(ctx):
             out_adt = sh["name"] + ("SaveloadData" if direction == "convert_into" else "")
             variants = sh["variants"] if sh["kind"] == "enum" else [{"name": None, "fields": sh["fields"]}]
             problems = []
+            undet = []
             for v in variants:
                 aggs = []
                 for bid, blk in b.blocks.items():
@@ -81,7 +82,15 @@ def run(ctx):
                             problems.append("skipped field %s does not come from input field %s (%r)" % (f["name"], f["name"], o))
                         continue
                     if len(convs) != 1:
-                        problems.append("field %s derives from %d conversion calls" % (f["name"], len(convs)))
+                        composite = f["ty"].strip().startswith(("[", "("))
+                        if composite:
+                            # an array / tuple field converted element by element (a derive that learnt to look inside): whether every element
+                            # keeps its place is index arithmetic inside generated closures - not decided, and a correct element-wise
+                            # derive looks the same
+                            undet.append("field %s of composite type %s is not converted by one whole-field conversion call (%d calls): element "
+                                         "placement not decided" % (f["name"], f["ty"], len(convs)))
+                        else:
+                            problems.append("field %s derives from %d conversion calls" % (f["name"], len(convs)))
                         continue
                     cb = convs[0][1]
                     c = b.term(cb)["callee"]
@@ -101,7 +110,7 @@ def run(ctx):
                         tgt = tv.get(k, other)
                         if bid in b.reachable(0, removed={(sbb, tgt)}):
                             problems.append("unit variant %s is produced for another input variant" % v["name"])
-            ctx.ob("C18-R1", key, not problems, b.loc(), "; ".join(problems[:4]), config="shapes")
+            ctx.ob("C18-R1", key, False if problems else ("undetermined" if undet else True), b.loc(), "; ".join((problems or undet)[:4]), config="shapes")
     ctx.floor("C18-R1", "generated conversion bodies checked", n, 60, config="shapes")
 
 
